@@ -96,7 +96,7 @@ def generate(seed: int, tier: str) -> Dict[str, Any]:
             "readers": sorted(a["id"] for a in agents if r.chance(0.3)),
             # a driver context that carries no turn id at all
             "no_turn_id": r.chance(0.06), "ctx_style": r.choice(["both", "both", "cfg_only"]),
-            "read_how": r.choice(["attr", "attr", "subscript"]),
+            "read_how": r.choice(["attr", "attr", "subscript", "iterate"]),
             # ... or one whose turn id is there and is None
             "turn_id_none": r.chance(0.05),
             # compute phases that report the shared surface graph among the graphs they touched (a report, not a declaration)
@@ -159,6 +159,12 @@ def _mk_stub(spec_by_agent: Dict[str, Dict[str, Any]], touched_shared: bool = Fa
             how = spec.get("read_how", "attr")
             if how == "subscript":
                 reg = state["registry"]          # the plain-dict way (tests/helpers build dict states and read them like this)
+            elif how == "iterate":
+                # a dict-shaped state walked like a dict: its key names (sorted: only the set matters) and their number
+                keys = sorted(str(k) for k in state if not str(k).startswith("_"))
+                append_jsonl("t1.jsonl", {"agent": str(ctx.agent_id), "turn": ctx.turn_id, "state_keys": keys[:4], "has_registry": "registry" in keys,
+                                          "len_ok": len(state) >= len(keys)})
+                reg = state["registry"]
             else:
                 reg = getattr(state, "registry", None)
                 if reg is None:
